@@ -347,7 +347,7 @@ def bf2_cases(rng, n):
     out = []
     for _ in range(n):
         text, _ = gen_bf2.gen_file(rng, big=rng.choice([300, 300, 3000]), marker=rng.random() < 0.8,
-                                   debug=rng.random() < 0.05)
+                                   debug=rng.random() < 0.05, defect=rng.random() < 0.3)
         enf = rng.choice("110")
         out.append((enf, text))
         for _ in range(3):
